@@ -10,10 +10,10 @@ var ledgerComponents = map[string]string{
 var registry = map[string]propCfg{
 	"C13": {
 		Engine: "ledgersim", Level: "exploration",
-		Quick:       tierCfg{Runs: 6000, BudgetS: 60, MinimiseS: 20},
-		Thorough:    tierCfg{Runs: 400000, BudgetS: 900, MinimiseS: 120},
-		Rule:        "one case = one seeded op sequence (set/add/del/get/balance/nonce/code/query/snapshot/revert/txend/commit/reopen, per-run op weights and LRU sizes 1,2,3,8 or shipped) executed on the real SimpleLedger over SimKV and on a map+undo-log reference model, every read compared; non-trivial = contains at least one commit and >=5 executed steps; distinct = distinct event-log digests",
-		Assumptions: []string{"SimKV mimics goleveldb's observable semantics (value copies, empty value reads back non-nil, ordered iteration)", "flush and commit are issued back to back as the block executor does", "AddState on an account object created after a still-open snapshot is not generated (its fate on revert is unspecified)"},
+		Quick:       tierCfg{Runs: 40000, BudgetS: 60, MinimiseS: 20},
+		Thorough:    tierCfg{Runs: 4000000, BudgetS: 900, MinimiseS: 120},
+		Rule:        "one case = one seeded op sequence (set/add/del/get/balance/nonce/code/query/snapshot/revert/txend/flush/commit/reopen, per-run op weights and LRU sizes 1,2,3,8 or shipped) executed on the real SimpleLedger over SimKV and on a map+undo-log reference model, every read compared; non-trivial = contains at least one commit and >=5 executed steps; distinct = distinct event-log digests",
+		Assumptions: []string{"SimKV mimics goleveldb's observable semantics (value copies, empty value reads back non-nil, ordered iteration)", "reads between flush and commit (executor ahead of persistence by one or more blocks) are generated only with the shipped cache sizes: the cache is the only holder of a flushed block, an eviction there would need the harness-shrunk sizes", "AddState on an account object created after a still-open snapshot is not generated (its fate on revert is unspecified)"},
 		Components:  ledgerComponents,
 	},
 	"C10": {
